@@ -16,6 +16,8 @@
            preamble any more, it is a malformed request line),
            decl: BOOLEAN (the address a PROXY line declares is itself in   *)
 (*         forwarded_allow_ips - it is not the peer, so it grants nothing),*)
+(*         tls: BOOLEAN (the listener terminates TLS itself: the scheme is *)
+(*         https unless a permitted forwarder says otherwise),             *)
 (*         wk: "sync"|"gthread"|"async", hs: Seq(header kind)]             *)
 (* obs  = [out: "app"|"reject", scheme, sn (SCRIPT_NAME is not empty, i.e.   *)
 (*         it was taken from some request header), addr: "peer"|"declared", amb (some environ variable     *)
@@ -82,6 +84,7 @@ ProxyInForce(c) ==
         \/ c.wk = "async"
         \/ (c.wk = "gthread" /\ "NoProxyCarryGthread" \notin Dev)
 
+BaseScheme(c) == IF c.tls THEN "https" ELSE "http"
 Model(c) ==
   LET w == Walk(c, c.hs, "none", <<>>, TRUE)
       \* request 1 with a PROXY line: refused if proxy protocol is on and the peer is not allowed;
@@ -94,7 +97,7 @@ Model(c) ==
   IN IF noSuch \/ (c.idx = 1 /\ plineReject) \/ ~w.ok
      THEN [out |-> "reject", scheme |-> "http", sn |-> FALSE, addr |-> "peer", amb |-> FALSE]
      ELSE [out |-> "app",
-           scheme |-> IF w.sch = "https" THEN "https" ELSE "http",
+           scheme |-> IF w.sch = "none" THEN BaseScheme(c) ELSE w.sch,
            sn |-> \E i \in DOMAIN w.kept : w.kept[i] = "sn",
            addr |-> IF ProxyInForce(c) THEN "declared" ELSE "peer",
            amb |-> Ambiguous(c, w.kept)]
@@ -102,6 +105,7 @@ Model(c) ==
 -----------------------------------------------------------------------------
 (* C08: the trust rules, and nothing else *)
 HasSecure(c) == \E i \in DOMAIN c.hs : Secure(c.hs[i])
+SomeHeaderSays(c, sch) == \E i \in DOMAIN c.hs : c.hs[i] \in SchemeKinds /\ (Secure(c.hs[i]) <=> sch = "https")
 HasSN(c) == \E i \in DOMAIN c.hs : c.hs[i] = "sn"
 ConflictingScheme(c) == \E i, j \in DOMAIN c.hs : c.hs[i] \in SchemeKinds /\ c.hs[j] \in SchemeKinds /\ Secure(c.hs[i]) # Secure(c.hs[j])
 PlineAcceptable(c) == c.pp /\ c.pline /\ TrustedPP(c)
@@ -110,7 +114,7 @@ Envelope(c, o) ==
   IF o.out = "reject" THEN "ok"                               \* refusing is always safe
   ELSE IF c.hm \in {"drop", "refuse"} /\ o.amb THEN "AmbiguousMapping"
   ELSE IF c.idx = 2 /\ c.wk = "sync" THEN "ok"                 \* (no second request on a sync connection)
-  ELSE IF o.scheme = "https" /\ ~(PeerTrustedFwd(c) /\ c.ssh = "default" /\ HasSecure(c)) THEN "SchemeFromUntrustedPeer"
+  ELSE IF o.scheme # BaseScheme(c) /\ ~(PeerTrustedFwd(c) /\ c.ssh = "default" /\ SomeHeaderSays(c, o.scheme)) THEN "SchemeFromUntrustedPeer"
   ELSE IF PeerTrustedFwd(c) /\ c.ssh = "default" /\ ConflictingScheme(c) THEN "ConflictingSchemeAccepted"
   ELSE IF o.sn /\ c.hm # "dangerous" /\ ~(PeerTrustedFwd(c) /\ HasSN(c) /\ InFwdHeaders(c, "sn")) THEN "ScriptNameFromUntrustedPeer"
   ELSE IF o.addr = "declared" /\ ~PlineAcceptable(c) THEN "RemoteAddrFromUntrustedPeer"
@@ -123,7 +127,8 @@ Seqs(K, n) == UNION {[1..k -> K] : k \in 0..n}
 Peers == {"listed", "unlisted", "unix"}
 Allow == {"none", "listed", "star"}
 Base == [peer |-> "listed", fa |-> "listed", fh |-> "default", hm |-> "drop", ssh |-> "default", pp |-> FALSE,
-         pa |-> "listed", pline |-> FALSE, idx |-> 1, wk |-> "sync", hs |-> <<>>, decl |-> FALSE, pline2 |-> FALSE]
+         pa |-> "listed", pline |-> FALSE, idx |-> 1, wk |-> "sync", hs |-> <<>>, decl |-> FALSE, pline2 |-> FALSE,
+         tls |-> FALSE]
 (* proxy-protocol product (headers <= 1) *)
 CasesA == {[Base EXCEPT !.peer = p, !.pp = pp, !.pa = pa, !.pline = pl, !.idx = i, !.wk = w, !.hs = hs, !.fa = fa, !.decl = d] :
              p \in Peers, pp \in BOOLEAN, pa \in Allow, pl \in BOOLEAN, i \in {1, 2},
@@ -139,8 +144,13 @@ CasesB == {[Base EXCEPT !.peer = p, !.fa = fa, !.fh = fh, !.hm = hm, !.ssh = ssh
 CasesB3 == {[Base EXCEPT !.peer = p, !.fa = fa, !.fh = fh, !.hm = hm, !.hs = hs] :
              p \in {"listed", "unlisted"}, fa \in {"none", "listed"}, fh \in {"default", "star"}, hm \in {"drop", "refuse"},
              hs \in [1..3 -> HdrKinds]}
+(* TLS terminated by gunicorn itself: scheme headers of every kind from every peer *)
+CasesT == {[Base EXCEPT !.tls = TRUE, !.peer = p, !.fa = fa, !.ssh = ssh, !.wk = w, !.hs = hs] :
+             p \in Peers, fa \in Allow, ssh \in {"default", "empty"}, w \in {"sync", "gthread", "async"},
+             hs \in Seqs(SchemeKinds \cup {"proto_us", "plain"}, 2)}
 CONSTANT Product
-Cases == CASE Product = "A" -> CasesA [] Product = "B" -> CasesB [] Product = "B3" -> CasesB3 [] OTHER -> CasesA \cup CasesB
+Cases == CASE Product = "A" -> CasesA [] Product = "B" -> CasesB [] Product = "B3" -> CasesB3 [] Product = "T" -> CasesT
+           [] OTHER -> CasesA \cup CasesB
 
 (* observation of the real code: merged = pairs of indices into c.hs that landed in one variable *)
 AmbObs(c, merged) ==
